@@ -56,7 +56,12 @@ def check_C18(tier, seed):
                      "under a deadline"],
         rule=HIST_RULE + "classes: cycles (ingest/flush cycles), cycles-bgflush (max_wal_files in {0,1,2}, "
              "max_wal_size_bytes in {1,300,700}: ingestion blocks until the background flush ran), odd-table-names (table "
-             "names the storage layer sanitises, three with one stem); oracle without model: "
+             "names the storage layer sanitises, three with one stem), odd-table-names-compacting (dissimilar such "
+             "names, io_threads 4, factor 1, all tables created by the first request so that _meta_tables is never "
+             "compacted - F28 - while the others are: merged-away files of sanitised directories must disappear); "
+             "max_wal_size_bytes also 0 and, in every fourth bgflush history, exactly the size of the first segment "
+             "(measured on a scratch database): an ingestion that never returns is a violation (90 s deadline); "
+             "oracle without model: "
              "after every step the directory holds exactly the catalogue file, the partition files the durable catalogue "
              "names and the log segments from the cursor on; after a completed flush no segment and wal_size = 0")
 
@@ -69,7 +74,8 @@ def check_C07(tier, seed):
                      "outside Table.column_names are dropped, NULL cells of a partially-NULL column are lost (F1); the "
                      "byte-level encoders are C01's"],
         rule=HIST_RULE + "classes: dense, absent-columns (column sets change at partition boundaries; F1 once a merged "
-             "partition has a partially-NULL column), nulls-no-compaction, nulls-compaction (F1), strings (ordinary words; "
+             "partition has a partially-NULL column), nulls-no-compaction, nulls-compaction (F1), absent-columns-blind (restart, batch without a column, "
+             "compacting flush with no query in between, content read afterwards), strings (ordinary words; "
              "F28 once a merged packed-string column compresses), hex-strings (F2), compressible-strings (F28), wide-ints "
              "(every factor with restarts; regression class of the fixed F29), the F1 witness and the witness of the fixed "
              "F3; strings occur only in the three string classes, integers of 8/16/32-bit width and floats everywhere; "
@@ -85,7 +91,9 @@ def check_C09(tier, seed):
             "effect of FileBlobWriter::{store,delete} (effects of other threads wait meanwhile) and truncates freshly "
             "written temp files; reordering of effects by the host file system (power loss) is neither modelled nor tested",
             "the effect model keeps what recovery can tell apart: temp files of partition / catalogue files are never "
-            "read, so only their rename is an effect; sync changes nothing a reader sees"],
+            "read, so only their rename is an effect; sync changes nothing a reader sees; that the file renamed into "
+            "place holds exactly the bytes of this write (File::create truncates a leftover temp file of the same name) "
+            "is not modelled - it is exercised by the continuation probes"],
         assumptions=["workloads are sequential (no ingestion concurrent with the flush)",
                      "the theorems that exclude every failure of recovery are for histories of well-formed requests "
                      "(table names outside the catalogue namespace, C13); for arbitrary histories recovery returns the "
@@ -97,8 +105,14 @@ def check_C09(tier, seed):
              "ingestion exactly the acknowledged content while the segment still has its temporary name and exactly that "
              "plus the in-flight request whole (catalogue included) once it is renamed, for every other cut the "
              "acknowledged content; the recovery must have removed a leftover log temp file; every 4th copy is opened twice, copies taken at the recovery's "
-             "own effects (removal of the temp file, of segments below the cursor) are opened once more, per workload one "
-             "copy recovered from a cut with a log temp file and one from a cut of a flush are flushed; the abstracted effect trace of "
+             "own effects (removal of the temp file, of segments below the cursor) are opened once more; continuation "
+             "probes, once per workload and kind of leftover: a copy recovered from a cut with a log temp file / from a "
+             "cut of a flush gets a request for a new table, a flush and a clean restart; a copy recovered from the "
+             "cut that left a completely written catalogue temp file (always kept by the sampling) / a partition temp "
+             "file at the LAST flush gets a flush with factor 0 (every table merged: the catalogue file written is "
+             "shorter than the leftover) and a clean restart; content must be the recovered content (plus the "
+             "request) both times; one workload in eight is three rounds of (request for every table, flush) with "
+             "factor 999 (the catalogue grows); the abstracted effect trace of "
              "every operation must equal the model's (store_effects) and partition files / catalogue / removals must be "
              "ordered; non-trivial: the workload produced at least one cut")
 
@@ -114,7 +128,12 @@ def check_C13(tier, seed):
         rule=HIST_RULE + "classes: vary-within (every batch its own column subset, factor 999), vary-within-bgflush, "
              "vary-across (column sets change at partition boundaries, factors 1/4), vary-across-recompact (factor 0; F1 once "
              "a merged partition has a partially-NULL column), long-compressible-names (F28), odd-table-names (table names the storage layer sanitises, three with "
-             "one stem), the witness of the fixed F3; oracle "
+             "one stem), null-first-columns (a column is often all-NULL - ColumnData::Empty - in the batch that "
+             "mentions it first; factor 999), mixed-case-subpartitions (eight columns a0 B1 c2 D3 ..., "
+             "max_partition_size_bytes 8..40 so that partitions are several multi-column files; first request flushed, "
+             "then restart or evict, then read), absent-columns-blind (flushed partitions with a column, then restart, "
+             "a batch without it and a compacting flush with NO query in between - nothing resident - and content "
+             "read only afterwards and after one more restart), the witness of the fixed F3; oracle "
              "without model: SELECT column_name FROM _meta_columns_<t> = the set of names ever sent to t, each once; "
              "SELECT name FROM _meta_tables = tables and their catalogue tables, each once; SELECT * has the sorted "
              "catalogue as columns and the acknowledged cells (NULL where a batch did not carry the column)")
